@@ -252,24 +252,69 @@ def _forms(repo, col):
                   f"centres are linspace({a}, {b}, {c})", node=ls)
     except Und as e:
         col.unk(R, fi, "compartment centres", str(e), node=ls)
-    clip = [n for n in ast.walk(fi.node) if isinstance(n, ast.Assign) and isinstance(n.targets[0], ast.Subscript)
-            and unparse(n.targets[0]).replace(" ", "") == "radiuses_each[radiuses_each<min_radius]"]
-    col.check(bool(clip) and unparse(clip[0].value) == "min_radius", R, fi, "radii below min_radius are raised to min_radius",
-              "radiuses_each[radiuses_each < min_radius] = min_radius", "clipping from below at min_radius is missing or altered", node=clip[0] if clip else fi.node)
     ex = idx.expander(repo, fi)
-    rr = next((n for n in walk_no_nested(fi.node) if isinstance(n, ast.Assign) and unparse(n.targets[0]) == "radiuses"), None)
-    ok = rr is not None and unparse(rr.value) == "np.asarray([radius_fns[b](range_) for b in branch_indices])"
-    col.check(ok, R, fi, "branch b is evaluated with its own radius function at the centres", "radius_fns[b](range_) for b in branch_indices",
-              f"radiuses is {unparse(rr.value) if rr else None}", node=rr or fi.node)
+    # clipping from below: x[x < min_radius] = min_radius, or maximum(x, min_radius) / clip(x, min_radius, None) in the returned value
+    clipped, wrong = False, None
+    for s_ in ex.stores:
+        if s_.kind == "sub" and s_.key.op == "cmp" and s_.value is not None:
+            k = s_.key
+            thr = [a_ for a_ in k.args if a_.op == "param" and a_.name == "min_radius"]
+            arr = [a_ for a_ in k.args if a_.key() == s_.base.key()]
+            if thr and arr:
+                below = (k.name in ("<", "<=") and k.args[0] is arr[0]) or (k.name in (">", ">=") and k.args[1] is arr[0])
+                if below and s_.value.op == "param" and s_.value.name == "min_radius":
+                    clipped = True
+                else:
+                    wrong = s_
+    for r_ in ex.returns:
+        for x in r_.walk():
+            if x.op in ("mcall", "call") and x.name == "maximum" and any(a_.op == "param" and a_.name == "min_radius" for a_ in x.args):
+                clipped = True
+            if x.op in ("mcall", "call") and x.name == "clip":
+                lo = x.kw.get("a_min") or x.kw.get("min") or (x.args[2] if (x.op == "mcall" and len(x.args) > 2) else None)
+                if lo is not None and lo.op == "param" and lo.name == "min_radius":
+                    clipped = True
+    col.add(R, fi, "radii below min_radius are raised to min_radius", "DISCHARGED" if clipped else ("VIOLATED" if wrong is not None else "UNDECIDED"),
+            "x[x < min_radius] = min_radius" if clipped else
+            (f"the clipping is `{unparse(wrong.node)[:70]}`: radii below min_radius must become min_radius and no other radius may change"
+             if wrong is not None else "clipping from below at min_radius not found"), node=wrong.node if wrong is not None else fi.node)
+    # branch b is evaluated with ITS OWN radius function, at the centres
+    calls_ = []
+    for t_ in list(ex.returns) + [s_.value for s_ in ex.stores if s_.value is not None]:
+        calls_ += [x for x in t_.walk() if x.op == "callv" and x.args and T.find(x.args[0], lambda y: y.op == "param" and y.name == "radius_fns") is not None]
+    ok = False
+    det = None
+    for x in calls_:
+        f_ = x.args[0]
+        det = x.short(80)
+        own = f_.op == "sub" and f_.args[0].op == "param" and f_.args[0].name == "radius_fns" and f_.args[1].op == "elem" and \
+            f_.args[1].args[0].op == "param" and f_.args[1].args[0].name == "branch_indices"
+        at_centres = len(x.args) == 2 and T.find(x.args[1], lambda y: y.op == "mcall" and y.name == "linspace") is not None
+        ok = ok or (own and at_centres)
+    col.add(R, fi, "branch b is evaluated with its own radius function at the centres", "DISCHARGED" if ok else ("VIOLATED" if calls_ else "UNDECIDED"),
+            "radius_fns[b](centres) for b in branch_indices" if ok else f"the radius functions are applied as {det}", node=fi.node)
     # ---- path lengths (on normal forms: helpers inlined, conditionals lifted; operand order free)
     _pathlengths(repo, col)
     # ---- zero length, per-compartment length
     fi = repo.func(SW, "swc_to_jaxley")
-    src = unparse(fi.node)
-    ok = "if pathlen == 0.0:" in src and "pathlengths[i] = 1.0" in src
-    col.check(ok, R, fi, "zero-length sections get length 1.0", "pathlengths[i] = 1.0", "zero-length convention altered", node=fi.node)
-    ok = "pathlengths = [np.sum(length_traced) for length_traced in each_length]" in src
-    col.check(ok, R, fi, "branch length = sum of its segment lengths", "", "path length is not the sum of the segment lengths", node=fi.node)
+    from sa.terms import nest
+    exq = idx.expander(repo, fi)
+    zs = [s_ for s_ in exq.stores if s_.kind == "sub" and s_.value is not None and s_.value.op == "const" and
+          nest(s_.base, "sum", "each", "_compute_pathlengths")]
+    zero_guard = lambda s_: any(g.op == "cmp" and g.name in ("==", "<=") and any(a_.op == "const" and a_.name in (0, 0.0) for a_ in g.args) and
+                               T.find(g, lambda y: y.op == "elem") is not None for g in s_.guards)
+    zs = [s_ for s_ in zs if zero_guard(s_)]
+    col.add(R, fi, "zero-length sections get length 1.0", "DISCHARGED" if any(s_.value.name == 1.0 for s_ in zs) else ("VIOLATED" if zs else "UNDECIDED"),
+            "pathlengths[i] = 1.0 where the summed length is 0" if zs and any(s_.value.name == 1.0 for s_ in zs) else
+            (f"zero-length sections are given length {zs[0].value.short()}" if zs else "zero-length convention not found"), node=zs[0].node if zs else fi.node)
+    rt = exq.merged_return() or (exq.returns[-1] if exq.returns else None)
+    pl = rt.args[1] if (rt is not None and rt.op == "tuple" and len(rt.args) > 1) else None
+    if pl is None and rt is not None:
+        pl = next((x.args[1] for x in rt.walk() if x.op == "tuple" and len(x.args) == 5), None)
+    ok = pl is not None and nest(pl, "sum", "each", "_compute_pathlengths") and \
+        T.find(pl, lambda x: x.op in ("mcall", "call") and x.name in ("max", "amax", "mean", "prod")) is None
+    col.check(ok, R, fi, "branch length = sum of its segment lengths", "[np.sum(l) for l in _compute_pathlengths(...)]",
+              f"returned path lengths are {pl.short(120) if pl is not None else None}: not the sum of the traced segment lengths", node=fi.node)
     # in-place clamping of the traced segment lengths must not precede the path-length computation
     from sa.effects import Effects
     E = Effects(repo)
@@ -323,17 +368,57 @@ def _forms(repo, col):
                 f"branch points of multi-neurite cells are not the interpolation of the traced radii", node=g)
     fi = repo.func(SW, "read_swc")
     src = unparse(fi.node)
-    ok = "lengths_each = np.repeat(pathlengths, ncomp) / ncomp" in src and "cell.set('length', lengths_each)" in src
-    col.check(ok, R, fi, "compartment length = path length of its branch / ncomp", "np.repeat(pathlengths, ncomp) / ncomp",
-              "per-compartment length altered", node=fi.node)
+    exr = idx.expander(repo, fi)
+    from sa.terms import canon
+    sets = [s_ for s_ in exr.stores if s_.kind == "mcall" and s_.key.name == "set" and len(s_.value.args) >= 3 and
+            s_.value.args[1].op == "const" and s_.value.args[1].name == "length"]
+    ok, got = False, None
+    if sets:
+        got = sets[0].value.args[2]
+        # repeat(P, n) / n with P the path lengths returned by swc_to_jaxley and n the SAME count in both places
+        d = got
+        if d.op == "binop" and d.name == "/" and d.args[0].op == "mcall" and d.args[0].name == "repeat" and len(d.args[0].args) == 3:
+            rp = d.args[0]
+            P, n1, n2 = rp.args[1], rp.args[2], d.args[1]
+            ok = n1.key() == n2.key() and P.op == "item" and P.name == 1 and P.args[0].op == "call" and P.args[0].name == "swc_to_jaxley"
+    col.add(R, fi, "compartment length = path length of its branch / ncomp", "DISCHARGED" if ok else ("VIOLATED" if got is not None else "UNDECIDED"),
+            "np.repeat(pathlengths, ncomp) / ncomp" if ok else
+            f"compartment lengths are set to {got.short(120) if got is not None else None}: each of the ncomp compartments of a branch must get "
+            f"pathlength / ncomp", node=sets[0].node if sets else fi.node)
     lut = next((n for n in ast.walk(fi.node) if isinstance(n, ast.Dict) and len(n.keys) >= 5 and all(isinstance(k, ast.Constant) and isinstance(k.value, int) for k in n.keys)), None)
     got = {k.value: v.value for k, v in zip(lut.keys, lut.values)} if lut else {}
     want = {0: "undefined", 1: "soma", 2: "axon", 3: "basal", 4: "apical", 5: "custom"}
     col.check(got == want, R, fi, "SWC type names 0..5", str(got), f"type lookup is {got}", node=lut or fi.node)
-    ok = "if type_ind < 5.5:" in src and "name = f'custom{type_ind}'" in src and "indices = np.where(types == type_ind)[0].tolist()" in src and \
-        "cell.branch(indices).add_to_group(name)" in src
-    col.check(ok, R, fi, "type groups partition the branches by SWC type (types > 5 become custom<k>)", "",
-              "group assignment by type altered", node=fi.node)
+    # groups: for every distinct type t, the branches whose type == t are added to the group named after t
+    gs = [s_ for s_ in exr.stores if s_.kind == "mcall" and s_.key.name == "add_to_group"]
+    ok, why = False, "group assignment not found"
+    for s_ in gs:
+        sel = s_.base  # cell.branch(IDX)
+        if not (sel.op == "mcall" and sel.name == "branch" and len(sel.args) == 2):
+            continue
+        ix = sel.args[1]
+        eq = T.find(ix, lambda x: x.op == "cmp" and x.name == "==" and any(a_.op == "elem" and a_.args[0].op == "mcall" and a_.args[0].name == "unique" for a_ in x.args))
+        if eq is None:
+            why = f"branches are selected by {ix.short(80)}"
+            continue
+        el = next(a_ for a_ in eq.args if a_.op == "elem")
+        other = next(a_ for a_ in eq.args if a_ is not el)
+        same_types = el.args[0].args[1].key() == other.key() if len(el.args[0].args) > 1 else False
+        pos0 = T.find(ix, lambda x: x.op == "sub" and x.args[1].op == "const" and x.args[1].name == 0 and T.find(x.args[0], lambda y: y is eq) is not None) is not None
+        name = s_.value.args[1] if len(s_.value.args) > 1 else None
+        from .c11 import _str_parts
+        named = False
+        if name is not None:
+            alts = name.args if name.op == "phi" else ([name.args[1], name.args[2]] if name.op == "ifexp" else [name])
+            looks = [a_ for a_ in alts if a_.op == "sub" and a_.args[0].op == "dict" and a_.args[1].key() == el.key()]
+            customs = [a_ for a_ in alts if a_.op in ("fstr", "joined", "binop", "call", "mcall") and T.find(a_, lambda y: y.key() == el.key()) is not None and
+                       T.find(a_, lambda y: y.op == "const" and isinstance(y.name, str) and "custom" in y.name) is not None]
+            named = bool(looks) and bool(customs)
+        ok = same_types and pos0 and named
+        why = f"selection on the same type array: {same_types}; positions of the matches: {pos0}; name from the lookup / custom<k>: {named}"
+    col.add(R, fi, "type groups partition the branches by SWC type (types > 5 become custom<k>)", "DISCHARGED" if ok else ("VIOLATED" if gs else "UNDECIDED"),
+            "cell.branch(where(types == t)[0]).add_to_group(name(t)) for t in unique(types)" if ok else f"group assignment altered: {why}",
+            node=gs[0].node if gs else fi.node)
 
 
 def _conjuncts(guards):
